@@ -139,8 +139,19 @@ func c14Ops() []c14Op {
 	return append(ops, extra...)
 }
 
-func c14Case(op c14Op, tm terminator, n int) fw.Case {
-	return fw.Case{Name: fmt.Sprintf("%s@%d", tm.name, n), Bound: c14Bound, Opts: vrt.Options{Horizon: 40000, MaxTime: int64(5 * u)}, Make: func() fw.Instance {
+func c14Case(op c14Op, tm terminator, n int) fw.Case { return c14CaseRacing(op, tm, n, false) }
+
+// c14CaseRacing: with race set, a second producer goroutine pushes n values while Subscribe is still
+// setting the pipeline up, so that the downstream can terminate on the producer's goroutine before the
+// teardowns have been registered; the quiescent part of the scenario and the oracle are the same.
+func c14CaseRacing(op c14Op, tm terminator, n int, race bool) fw.Case {
+	nm := fmt.Sprintf("%s@%d", tm.name, n)
+	bound := c14Bound
+	if race {
+		nm = "producer-racing-subscribe/" + nm
+		bound = c14Bound + 1
+	}
+	return fw.Case{Name: nm, Bound: bound, Opts: vrt.Options{Horizon: 40000, MaxTime: int64(5 * u)}, Make: func() fw.Instance {
 		rec := h.NewRec("out")
 		src := h.NewSrc("src")
 		env := &c14env{}
@@ -151,6 +162,13 @@ func c14Case(op c14Op, tm terminator, n int) fw.Case {
 		body := func() {
 			o, push := h.Pushed[int](src, h.Unsafe)
 			pipeline := tm.wrap(op.chain(o), n, env)
+			if race {
+				vrt.GoNamed("racer", func() {
+					for i := 1; i <= n; i++ {
+						push.Next(100 + 2*i - 1)
+					}
+				})
+			}
 			vrt.GoNamed("subscribe", func() {
 				s := pipeline.Subscribe(h.Observer[int](rec))
 				env.setSub(s)
@@ -211,6 +229,11 @@ func c14Case(op c14Op, tm terminator, n int) fw.Case {
 				out = append(out, fw.V(sig+"/delivery-after-end/"+tmClass(tm), fmt.Sprintf("%s: a value pushed after the end was delivered: [%s]", where, rec.Trace())))
 			}
 			for _, b := range r.Blocked {
+				if b.Name == "racer" {
+					// the second producer of the harness: its Next call never returned
+					out = append(out, fw.V(sig+"/push-never-returns/blocked", fmt.Sprintf("%s: the producer's Next call did not return (%s) (trace [%s])", where, blockedSummary(r), rec.Trace())))
+					continue
+				}
 				if b.Name != "subscribe" && b.Name != "main" {
 					out = append(out, fw.V(sig+"/goroutine-left/"+b.Name, fmt.Sprintf("%s: library goroutine %s is still blocked (%s) after the end", where, b.Name, b.Op)))
 					break
@@ -308,6 +331,7 @@ func init() {
 					for _, n := range cuts {
 						c.Explore(c14Case(op, tm, n))
 					}
+					c.Explore(c14CaseRacing(op, tm, 1, true))
 				}
 			}})
 		}
